@@ -20,7 +20,8 @@ RULE = ("lattice: every 2-D grid {1..4}^2 and 3-D grid {1..3}^3 (one-layer domai
         "all 0/1 fields with at most m solid or at most m void elements, plus the grey tables (generic irrational "
         "fractions, mixed 0/1/grey, ramps, near-solid, near-void). Each point is run with the direction given as unit "
         "3-vector and compared with the reference; on the mirrored / axis-swapped grid in the mapped direction for "
-        "every mirror and swap (covariance); and -- for every field at the first (nsampling, parameter) point -- with "
+        "every mirror and swap (covariance; for the 0/1 families of the quick tier and of grids with more than 9 elements "
+        "at the first parameter triple only); and -- for every field at the first (nsampling, parameter) point -- with "
         "every other way of writing the direction (int list, un-normalised array, "
         "short float tuple, 2-long forms in 2-D; strings sign-before, sign-after, no sign, upper case) against the "
         "unit-vector form. A point is non-trivial if the domain has at least two layers in print direction (otherwise "
@@ -191,7 +192,9 @@ def bounds(tier, seed):
     return {'grids_2d': '{1..4}x{1..4}', 'grids_3d': '{1..3}^3', 'nsampling': {'2d': [3], '3d': [5, 9]},
             'parameters_binary_families': {k: PARS[k] for k in PAR_TABLES[t]},
             'parameters_grey_families': PARS, 'all_binary_fields_up_to_nel': {'2d': 12, '3d': 12},
-            'covariance_maps': 'all mirrors and swaps at every point',
+            'covariance_maps': 'all mirrors and swaps: at every point for grids up to 9 elements and for the grey '
+                               'tables; at the first parameter triple (every nsampling) for the 0/1 families of '
+                               'larger grids',
             'larger_grids_binary_with_at_most_m_solid_or_void': 2, 'grey_tables': [0, 1, 2],
             'grey_fields_per_table': len(GREY_NAMES), 'directions': 'all 4 (2-D) / 6 (3-D)',
             'direction_forms': 'unit 3-vector + 3..5 vector variants + 4..6 string spellings'}
@@ -220,17 +223,15 @@ def generate(tier, seed):
                 for d in dir_list(dim):
                     base = {'grid': list(g), 'ns': ns, 'par': par, 'dir': d}
                     forms = 'all' if (ins == 0 and par == pars_bin[0]) else 'none'
-                    for tab in tabs:
-                        yield dict(base, fam='grey', tab=tab, forms=forms, maps='all')
-                    if par not in pars_bin:
-                        continue
-                    maps = 'all' if (not quick or par == pars_bin[0]) else 'none'
+                    maps = 'all' if ((not quick and nel <= 9) or par == pars_bin[0]) else 'none'
                     if nel <= (nbin2 if dim == 2 else nbin3):
                         fam, extra, n = 'bin', {}, 2 ** nel
                     else:
                         fam, extra, n = 'few', {'m': m}, family_size('few', nel, m)
-                    for s in range(0, n, CHUNK):
+                    for s in (range(0, n, CHUNK) if par in pars_bin else ()):
                         yield dict(base, fam=fam, chunk=[s, min(CHUNK, n - s)], forms=forms, maps=maps, **extra)
+                    for tab in tabs:
+                        yield dict(base, fam='grey', tab=tab, forms=forms, maps='all')
 
 
 # ------------------------------------------------------------------ execution --------------------------------------
